@@ -61,6 +61,28 @@ async fn run_behaviour<const N: usize>(cfg: HCfg, beh: BehaviourJ, dir: std::pat
             break;
         }
     }
+    // C10 stated directly (behaviours of PearlFilters carry no expected observables): no key that was
+    // written may be reported absent, by any query or filter, in the state the behaviour ends in
+    if out.is_empty() && std::env::args().any(|a| a == "--probe-written") {
+        use pearl::{BloomProvider, FilterResult, ReadResult};
+        let mut written: Vec<u64> = steps.iter().filter(|s| s.act.a == "write").map(|s| s.act.k).collect();
+        written.sort();
+        written.dedup();
+        let st = d.storage.as_ref().expect("open");
+        for k in written {
+            let key = model_key::<N>(k);
+            let mut bad: Vec<String> = Vec::new();
+            match st.read(&key).await { Ok(ReadResult::Found(_)) => {}, other => bad.push(format!("read: {:?}", other.map(|r| match r { ReadResult::Found(_) => "found", ReadResult::Deleted(_) => "deleted", ReadResult::NotFound => "not found" }))) }
+            match st.contains(&key).await { Ok(ReadResult::Found(_)) => {}, other => bad.push(format!("contains: {:?}", other.map(|r| match r { ReadResult::Found(_) => "found", ReadResult::Deleted(_) => "deleted", ReadResult::NotFound => "not found" }))) }
+            match st.read_all(&key).await { Ok(v) if !v.is_empty() => {}, Ok(_) => bad.push("read_all: empty".into()), Err(e) => bad.push(format!("read_all: {e:#}")) }
+            if st.check_filters(&key).await == Some(false) { bad.push("check_filters: Some(false)".into()); }
+            if BloomProvider::check_filter(st, &key).await == FilterResult::NotContains { bad.push("check_filter: NotContains".into()); }
+            if !bad.is_empty() {
+                out.push(Mismatch { step: steps.len() - 1, action: steps.last().map(|s| s.act.a.clone()).unwrap_or_default(), kind: "filter_false_negative".into(),
+                    expected: json!(format!("key {k} was written: found by every query, passed by every filter")), got: json!(bad) });
+            }
+        }
+    }
     // `close` must return (C13); a failing close is reported like any other mismatch
     if out.is_empty() {
         d.last_active = -1;
